@@ -162,7 +162,7 @@ func runC02(c *Ctx) {
 			if c.Quick() && strings.Contains(class, "+") && rng.Intn(4) != 0 {
 				continue // compound rewrites: a quarter of them in the quick tier (C04 runs them all at blob level)
 			}
-			check("blob/"+class, rebuildWithBlobs(si.img, append([][]byte{blob}, si.blobs[1:]...)), rng.Intn(c.N(12, 4)) == 0)
+			check("blob/"+class, rebuildWithBlobs(si.img, append([][]byte{blob}, si.blobs[1:]...)), rng.Intn(c.Bound(12, 4)) == 0)
 		}
 		// the digest-swap forgery: change a covered byte of the image and put the new
 		// image digest into SpcIndirectDataContent (lengths are unchanged)
